@@ -1,4 +1,5 @@
 import Autog.Model.Pipeline
+import Autog.Lemmas.AcyclicRank
 import Autog.Lemmas.BreakFuel
 import Autog.Lemmas.DfsHasCycles
 import Autog.Lemmas.GreedyAssignedOnce
@@ -45,6 +46,10 @@ import Autog.Properties.C14
     * `C01_upto_tight_tree_any_input`: for EVERY non-empty edge list and option set the pre-processing returns, every component it
       returns is adjacency consistent (`adjL_preProcess`) and stays so through phase 1 with either breaker, so both cycle tests, the
       depth-first breaker and the tight-tree walk of the layerers return — no well-formedness hypothesis left;
+    * `C01_longestpath_layering_any_input`: for EVERY non-empty edge list and option set with the LongestPath layerer, every component
+      of more than one node and either breaker: whatever phase 1 returns, phase 2 returns (longest-path traversal, layer assignment, layer
+      list) — acyclicity comes from the completeness of the cycle test through its loop over all roots (`C01_cycle_test_complete`: when
+      `hasCycles` answers "no cycle" the finish order is a topological rank), which phase 1 runs last on what it returns;
     * `C01_setColor_total`, `C01_block_building_total`: SinkColoring's block building climbs one band per call;
     * `C01_breakLongEdges_total`: the index loop of `breakLongEdges` over the edge list it extends ends within the model's fuel on every
       state whose listed edges lie in the stores, never point upwards by more than one layer and are no longer than the layer list
@@ -285,5 +290,87 @@ def exLong : G :=
 example : BreakWF exLong := ⟨by decide, by decide, by decide⟩
 example : (match breakLongEdges exLong with | .ok g => g.elist.length == 3 && g.nodes.size == 4 | .error _ => false) = true := by
   decide +kernel
+
+
+/-! ### LongestPath layering returns on every input -/
+
+/-- what phase 1 returns has passed the cycle test -/
+theorem phase1_ok_acyclic (alg : Nat) (g g' : G) (hn : (g.nodes.size == 1) = false) (h : phase1 alg g = .ok g') :
+    hasCycles g' = .ok false := by
+  unfold phase1 at h
+  simp only [hn, Bool.false_eq_true, if_false, bind, Except.bind, pure, Except.pure] at h
+  cases hc : hasCycles (removeTwoNodeCycles g) with
+  | error e => rw [hc] at h; cases h
+  | ok b =>
+    rw [hc] at h
+    simp only at h
+    cases b with
+    | false => simp only [Bool.not_false, if_true, Except.ok.injEq] at h; subst h; exact hc
+    | true =>
+      simp only [Bool.not_true, Bool.false_eq_true, if_false] at h
+      cases hb : breakCycles alg (removeTwoNodeCycles g) with
+      | error e => rw [hb] at h; cases h
+      | ok g2 =>
+        rw [hb] at h
+        simp only at h
+        cases hc2 : hasCycles g2 with
+        | error e => rw [hc2] at h; cases h
+        | ok b2 =>
+          rw [hc2] at h
+          cases b2 with
+          | true => simp [throw, throwThe, MonadExceptOf.throw] at h
+          | false =>
+            simp only [Bool.false_eq_true, if_false, Except.ok.injEq] at h
+            subst h
+            exact hc2
+
+theorem C01_cycle_test_complete : type_of% @hasCycles_false_rank := @hasCycles_false_rank
+
+/-- on an adjacency-consistent state that passed the cycle test the longest-path traversal, the layer assignment and the construction of
+    the layer list all return -/
+theorem longestPath_total_of_acyclic (g : G) (hA : AdjL g) (hc : hasCycles g = .ok false) :
+    ∃ g2, (execLongestPath g >>= buildLayers) = .ok g2 := by
+  obtain ⟨rank, hr⟩ := hasCycles_false_rank g hc
+  have hR : ∀ v w, w ∈ outNbrs g v → w ≠ v → rank w < rank v := by
+    intro v w hw hne
+    unfold outNbrs at hw
+    obtain ⟨e, he, rfl⟩ := List.mem_map.1 hw
+    by_cases hv : v < g.nodes.size
+    · apply hr v (by simpa [G.nodeIds] using hv)
+      unfold outAdj
+      refine List.mem_map.2 ⟨e, List.mem_filter.2 ⟨he, ?_⟩, rfl⟩
+      have hsrc := (hA.toAdj.outs v e he).2
+      simp only [G.selfLoops, hsrc, Bool.not_eq_true', beq_eq_false_iff_ne, ne_eq]
+      exact fun h => hne h.symm
+    · rw [(node_default_lists g v hv).2] at he; cases he
+  obtain ⟨memo, hm⟩ := heights_total g hA.toAdj.edgesWF rank hR
+  have hex : ∃ g1, execLongestPath g = .ok g1 := by
+    unfold execLongestPath
+    simp only [hm, bind, Except.bind, pure, Except.pure]
+    exact ⟨_, rfl⟩
+  obtain ⟨g1, hg1⟩ := hex
+  obtain ⟨g2, hg2⟩ := C01_layers_total g1 (C01_longestpath_layers_nonneg g g1 hg1)
+  exact ⟨g2, by simp only [hg1, bind, Except.bind, hg2]⟩
+
+/-- **C01, up to the layer lists with LongestPath layering, for every input**: for any non-empty edge list and any options the
+    pre-processing returns, and for every component with more than one node and either cycle breaker: whatever state phase 1 returns,
+    phase 2 with the LongestPath layerer returns (longest-path traversal, layer assignment, construction of the layer list) —
+    nothing assumed: adjacency consistency comes from `adjL_preProcess` / `adjL_phase1`, acyclicity from the completeness of the
+    cycle test that phase 1 itself runs last (`C01_cycle_test_complete`) -/
+theorem C01_longestpath_layering_any_input (cfg : Cfg) (es : InEdges) (hne : es ≠ []) (hp2 : cfg.p2 = 1) :
+    ∃ cs, preProcess cfg es = .ok cs ∧ ∀ c ∈ cs, 2 ≤ c.1.nodes.size →
+      ∀ alg g1, phase1 alg c.1 = .ok g1 → ∃ g2, phase2Model cfg g1 = .ok g2 := by
+  obtain ⟨cs, hcs⟩ := preProcess_total cfg es hne
+  refine ⟨cs, hcs, fun c hc hn2 alg g1 h1 => ?_⟩
+  have hn : (c.1.nodes.size == 1) = false := by simp; omega
+  have hA := adjL_phase1 alg c.1 g1 (adjL_preProcess cfg es cs hcs c hc) h1
+  have hac := phase1_ok_acyclic alg c.1 g1 hn h1
+  -- phase 1 never shrinks the node store
+  have hsz : (g1.nodes.size == 1) = false := by
+    have := (statEq_phase1 alg c.1 g1 h1).1
+    simp; omega
+  unfold phase2Model
+  simp only [hsz, Bool.false_eq_true, if_false, hp2, beq_self_eq_true, if_true]
+  exact longestPath_total_of_acyclic g1 hA hac
 
 end Autog
